@@ -132,6 +132,17 @@ CHECKS = {
         note="Forced replacement of the daemon's own id and forcing one object under two ids are explored but not judged; depth/state caps in evidence.",
         design_ref="DESIGN.md section 3 C16",
     ),
+    "C09": dict(
+        engine="S+N+T",
+        technique="exhaustive enumeration of connection histories x instance shapes x creators against a serial-number model, plus stateless model checking of concurrent first calls in _getInstance",
+        text="Every valid history of open/call/close steps over 2-3 connections up to length 5 (quick) / 6 (thorough), for the three instance modes x five instance shapes "
+             "(truthy, falsy by __len__ / __bool__, __eq__ always True / False) x four creators (none, counting, failing once, wrong type) runs against a fresh real "
+             "daemon; the model fixes which instance serves each call, how many instances and creator calls happen and that a session instance dies with its connection. "
+             "In addition every schedule (line granularity inside Daemon._getInstance, preemption bound 2-3) of 2-3 threads making their first calls concurrently must "
+             "yield exactly one 'single' instance and one creator call, and unshared session instances.",
+        note="Schedule part drives _getInstance on a transport-less daemon shell; history part uses the synchronous in-memory transport (multiplex event handler).",
+        design_ref="DESIGN.md section 3 C09",
+    ),
 }
 
 NOT_YET = {}
